@@ -113,8 +113,18 @@ def run(ctx):
     ctx.add_stats(st)
     ctx.traces += len(events)
     ctx.nontrivial_n = len({(e["c"]["p"], e["c"]["a"], e["op"], tuple(e["A"]["t"]), tuple(e["B"]["t"]), e["k"], e["ka"], e["kb"]) for e in events})
+    ndrift = 0
     for ix, clause in bad:
+        names = clause[0][1] if clause else []
+        if any(str(c_).startswith("DRIFT") for c_ in names):
+            ndrift += 1
+            if ndrift <= 3:
+                ctx.note("DRIFT (not an alarm): the raw result triple differs from Jacobi.tla's formulas: %s" % describe(events[ix])[:300])
+            clause = [("set", [c_ for c_ in names if not str(c_).startswith("DRIFT")])]
+            if not clause[0][1]:
+                continue
         ctx.violation("%s: %s" % (clause[0][1] if clause else clause, describe(events[ix])), {"event": events[ix]}, keys=keys[ix])
+    ctx.extra["drift_events"] = ndrift
     for ix in (0, len(events) // 2, len(events) - 1):
         ctx.sample(events[ix])
     production(ctx, quick, rnd)
